@@ -75,6 +75,7 @@ type thread struct {
 	resItem    string
 	opDirty    bool
 	wasBlocked bool // was blocked before the last step of somebody else
+	waited     bool // a blk event was reported for the current request
 	blocked    bool // scheduler's cache: seen parked inside a lock since the last step of anybody
 	own        string
 }
@@ -340,6 +341,7 @@ type env interface {
 	digest() string
 	items() []string
 	other(th *thread, seq int) string // an admission by ANOTHER client through the same service instance ("" = ran)
+	victimClosed(name string) bool    // the evicted item's resources were released
 	close()
 }
 
@@ -351,6 +353,7 @@ type base struct {
 }
 
 func (b *base) other(*thread, int) string { return "err:no-other-client" }
+func (b *base) victimClosed(string) bool  { return true }
 func (b *base) close()                    { b.cancel() }
 
 func errTok(err error) string {
@@ -484,6 +487,155 @@ func (e *ctrlEnv) digest() string {
 	return fmt.Sprint(it, e.occupancy())
 }
 func (e *ctrlEnv) close() { e.sm.Close(); e.cancel() }
+
+// ---- ctrlx: Register with stream doubles whose Close() is a gate
+
+// gatedStream: the only method the registry calls on the stream of an evicted / removed connection
+// is Close(); the harness can stop a thread inside it.
+type gatedStream struct {
+	stream.PackageStreamer
+	g      *gate
+	closed atomic.Bool
+}
+
+func (s *gatedStream) Close() { s.g.enter(); s.closed.Store(true) }
+
+// guarded runs an observation that may need a lock of the code under test.  If the observer ends
+// up parked in such a lock (a thread was stopped inside a critical section) the observation is
+// abandoned: (zero, false).  The abandoned goroutine finishes by itself once the lock is free.
+func guarded[T any](f func() T) (T, bool) {
+	type res struct{ v T }
+	ch := make(chan res, 1)
+	gidc := make(chan uint64, 1)
+	go func() {
+		gidc <- goid()
+		ch <- res{f()}
+	}()
+	gid := <-gidc
+	confirm := 0
+	for spins := 0; ; spins++ {
+		select {
+		case r := <-ch:
+			return r.v, true
+		default:
+		}
+		if spins < 200 {
+			runtime.Gosched()
+			continue
+		}
+		if lockBlocked()[gid] {
+			confirm++
+			if confirm >= 3 {
+				var zero T
+				return zero, false
+			}
+		} else {
+			confirm = 0
+		}
+		for i := 0; i < 20; i++ {
+			runtime.Gosched()
+		}
+	}
+}
+
+type ctrlxSnap struct {
+	n     int
+	items []string
+}
+
+type ctrlxEnv struct {
+	base
+	reg      *session.ClientRegistry
+	seq      int64
+	known    []string
+	admitted map[string]bool
+	streams  map[string]*gatedStream
+	mu       sync.Mutex
+}
+
+// register: the harness reads nothing back from the registry here (that would need its lock, which
+// the next thread in line may already hold): Register's own answer says whether the connection is in.
+func (e *ctrlxEnv) register(name string) bool {
+	e.mu.Lock()
+	e.seq++
+	seq := e.seq
+	e.known = append(e.known, name)
+	st := &gatedStream{g: e.g}
+	e.streams[name] = st
+	e.mu.Unlock()
+	cc := session.NewControlConnection(name, st, nil, "tcp")
+	cc.CreatedAt = time.Unix(1700000000+seq, 0)
+	err := e.reg.Register(cc)
+	if err == nil {
+		e.mu.Lock()
+		e.admitted[name] = true
+		e.mu.Unlock()
+	}
+	return err == nil
+}
+func (e *ctrlxEnv) setup() error {
+	e.streams = map[string]*gatedStream{}
+	e.admitted = map[string]bool{}
+	e.reg = session.NewClientRegistry(&session.ClientRegistryConfig{MaxConnections: e.k.limit})
+	for i := 0; i < e.k.pre; i++ {
+		if !e.register(fmt.Sprintf("p%d", i)) {
+			return fmt.Errorf("prefill refused")
+		}
+	}
+	if e.occupancy() != e.k.pre {
+		return fmt.Errorf("prefill evicted")
+	}
+	return nil
+}
+func (e *ctrlxEnv) admit(th *thread, name string) (bool, string) { return e.register(name), "" }
+func (e *ctrlxEnv) release(th *thread, name string) bool         { return false }
+
+// snap: what the registry says, if it can be asked; while a thread is stopped inside the registry's
+// critical section nobody can ask (any observer would wait for the lock), and the harness falls back
+// to what it knows without the lock: connections whose Register succeeded and whose stream has not
+// been closed by an eviction.
+func (e *ctrlxEnv) snap() ctrlxSnap {
+	e.mu.Lock()
+	known := append([]string(nil), e.known...)
+	e.mu.Unlock()
+	s, ok := guarded(func() ctrlxSnap {
+		var r ctrlxSnap
+		r.n = e.reg.Count()
+		for _, n := range known {
+			if e.reg.GetByConnID(n) != nil {
+				r.items = append(r.items, n)
+			}
+		}
+		return r
+	})
+	if ok {
+		return s
+	}
+	e.mu.Lock()
+	defer e.mu.Unlock()
+	var r ctrlxSnap
+	for _, n := range known {
+		if e.admitted[n] && !e.streams[n].closed.Load() {
+			r.items = append(r.items, n)
+		}
+	}
+	r.n = len(r.items)
+	return r
+}
+func (e *ctrlxEnv) occupancy() int  { return e.snap().n }
+func (e *ctrlxEnv) items() []string { return e.snap().items }
+func (e *ctrlxEnv) digest() string {
+	s := e.snap()
+	it := append([]string(nil), s.items...)
+	sort.Strings(it)
+	return fmt.Sprint(it, s.n)
+}
+func (e *ctrlxEnv) victimClosed(name string) bool {
+	e.mu.Lock()
+	defer e.mu.Unlock()
+	st := e.streams[name]
+	return st != nil && st.closed.Load()
+}
 
 // ---- tun
 
@@ -1004,7 +1156,7 @@ func (t *toks) want(s string) {
 	}
 }
 
-var zeroUnl = map[string]bool{"conn": true, "ctrl": true, "tun": true, "map": true, "mapu": true, "code": false, "mapq": false}
+var zeroUnl = map[string]bool{"conn": true, "ctrl": true, "ctrlx": true, "tun": true, "map": true, "mapu": true, "code": false, "mapq": false}
 
 func parseCase(s string) (*kase, bool) {
 	t := &toks{t: strings.Fields(s)}
@@ -1046,6 +1198,9 @@ func parseCase(s string) (*kase, bool) {
 			for j := 0; j < nops && !t.e; j++ {
 				switch c := t.next(); c {
 				case "a", "r":
+					if c == "r" && k.proto == "ctrlx" {
+						t.e = true // registrations only (a removal would be stopped inside its own Close())
+					}
 					th.ops = append(th.ops, c[0])
 				case "o":
 					if k.proto != "code" && k.proto != "mapq" {
@@ -1082,6 +1237,8 @@ func newEnv(k *kase, g *gate) env {
 		return &connEnv{base: b}
 	case "ctrl":
 		return &ctrlEnv{base: b}
+	case "ctrlx":
+		return &ctrlxEnv{base: b}
 	case "tun":
 		return &tunEnv{base: b}
 	case "map":
@@ -1097,6 +1254,21 @@ func newEnv(k *kase, g *gate) env {
 }
 
 var timeouts int
+
+// missing: items of `before` that are not in `after`.
+func missing(before, after []string) []string {
+	now := map[string]bool{}
+	for _, x := range after {
+		now[x] = true
+	}
+	var r []string
+	for _, x := range before {
+		if !now[x] {
+			r = append(r, x)
+		}
+	}
+	return r
+}
 
 var allProcs = runtime.GOMAXPROCS(0)
 var curProcs = allProcs
@@ -1140,6 +1312,7 @@ func execCase(cs string) (obs string) {
 	}
 	next := k.pre
 	var evs []string
+	fusedLock := k.proto == "ctrlx" // Lock() is not followed by a gate: it is part of the first step
 
 	runThread := func(th *thread) {
 		defer func() {
@@ -1226,9 +1399,18 @@ func execCase(cs string) (obs string) {
 			}
 			if st == 0 {
 				// still blocked inside a lock of the code under test: the request keeps waiting
+				th.waited = true
 				evs = append(evs, fmt.Sprintf("blk.%d.%d", tid, e.occupancy()))
 				continue
 			}
+			if th.waited && !atStart && fusedLock {
+				// the request was handed the lock and ran on by itself to its first gate inside the
+				// critical section: that was its entry step
+				th.waited = false
+				evs = append(evs, fmt.Sprintf("stp.%d.%d", tid, e.occupancy()))
+				continue
+			}
+			th.waited = false
 			if atStart {
 				th.opDirty = false
 			}
@@ -1249,10 +1431,18 @@ func execCase(cs string) (obs string) {
 			n := e.occupancy()
 			switch res {
 			case "":
-				if stNow == 0 {
+				gone := missing(itemsBefore, e.items())
+				switch {
+				case stNow == 0:
 					// the step ended inside Lock(): the request queues up behind the holder
+					th.waited = true
 					evs = append(evs, fmt.Sprintf("blk.%d.%d", tid, n))
-				} else {
+				case len(gone) == 1:
+					// an item left in a step of its own (eviction not in the critical section of the insert)
+					evs = append(evs, fmt.Sprintf("evi.%d.%d.%d", tid, num[gone[0]], n))
+				case len(gone) > 1:
+					evs = append(evs, fmt.Sprintf("evi-many.%d", tid))
+				default:
 					evs = append(evs, fmt.Sprintf("stp.%d.%d", tid, n))
 				}
 			case "oth":
@@ -1274,6 +1464,9 @@ func execCase(cs string) (obs string) {
 				v := "-"
 				if len(victims) == 1 {
 					v = strconv.Itoa(num[victims[0]])
+					if !e.victimClosed(victims[0]) {
+						v = "unclosed"
+					}
 				} else if len(victims) > 1 {
 					v = "many"
 				}
